@@ -272,7 +272,11 @@ impl<A: Codec> Seq<A> {
     pub fn from_raw(len: usize, bits: &[usize]) -> Option<Self> {
         let mut bv: Bv = Bv::from_slice(bits);
         //debug_assert!(len <= bv.len(), "desired length is greater than provided bits string");
-        if len * A::BITS as usize > bv.len() {
+        // a count whose bit length does not even fit in `usize` cannot be held by any image
+        if len
+            .checked_mul(A::BITS as usize)
+            .map_or(true, |bits| bits > bv.len())
+        {
             None
         } else {
             bv.truncate(len * A::BITS as usize);
